@@ -645,6 +645,7 @@ func ruleC12(prog *Program, rep *Report) {
 	rulePrecAgree(prog, rep)     // "parentheses combine exactly as the script prints": parser and printer use one precedence relation
 	ruleNormalizeTwins(prog, rep)
 	ruleNumFamily(prog, rep, 1, "jp")
+	ruleMustCompile(prog, rep, "jp")
 	ruleOperandSet(prog, rep, 10, "jp") // a path operand that selects nothing must reach the operators as Nothing
 	ruleCallOrder(prog, rep, 1, "jp")
 	ruleIfaceEq(prog, rep, "jp")            // asm is not in scope: Plan.Execute turns a comparison panic into its error result
